@@ -24,6 +24,25 @@ CHECKS = {
         ref="5/C19"),
 }
 
+FAM_NOTE = ("Trusts TLC, the rank-table abstraction of distances (dense ranks of the float32 values the real kernels return), "
+            "the verif-tagged read-only dump of the index, and Go's determinism on tie-free instances. The exact model covers instances whose "
+            "beam never truncates and the Simple/Heuristic selection modes; beyond that only the property-level trace validation applies.")
+FAM_TECH = "TLA+ model checking (TLC) of an exact index model + replay of every TLC-generated history on the real partition state machine + TLC trace validation"
+CHECKS.update({
+    "C01": dict(
+        text="Hnsw.tla is an exact model of index/hnsw.go on small instances; TLC checks EpLive/SearchSound for every query and k in every reachable state (exhaustive within 3 ids x 4 points x 2 levels x 4 objects). Every emitted history is replayed through the real partition.process on index.Hnsw for 3 metrics x 3 selection modes, compared with the model state (0 drift expected) and validated at property level by HnswTrace; seeded random histories with larger M, tiny ef/efConstruction, ties and batches are validated at property level only.",
+        note=FAM_NOTE, technique=FAM_TECH, ref="5/C01"),
+    "C02": dict(
+        text="PartitionMap.tla specifies the sequential map with exact outcomes and counters (TLC: CountersOK, FailedUnchanged; Hnsw refines it, property RefinesMap). For each of the 1000 map states TLC emits, the harness tries every single-item change, save/load and seeded batch changes on the real partition state machine; HnswTrace validates outcome, contents, counters and the byte-size window of every call.",
+        note=FAM_NOTE, technique=FAM_TECH, ref="5/C02"),
+    "C07": dict(
+        text="Clause 1 (exact top-k on small insert-only collections) is the invariant SmallExact of Hnsw.tla, checked exhaustively by TLC and, on the real index, by HnswTrace on every replayed history and on random insert-only histories with M up to 16. Clause 2 (recall floor) is statistical and is not decided by the specification.",
+        note=FAM_NOTE + " The recall clause is outside the specification (DESIGN.md section 6).", technique=FAM_TECH, ref="5/C07"),
+    "C08": dict(
+        text="Hnsw.tla's RoundTrip invariant (a snapshot of every reachable state reproduces items, links among live items, entry point and every probe answer) is checked exhaustively; on the real code every save/load step of every replayed history goes through partition.snapshot/processSnapshot into a fresh and a used index and HnswTrace compares both with the pre-state.",
+        note=FAM_NOTE + " Memory use on foreign byte streams is outside the specification.", technique=FAM_TECH, ref="5/C08"),
+})
+
 NOT_APPLICABLE = {
     "C15": "Numeric agreement and memory safety of hand-written AVX/SSE kernels: no state machine to specify, TLC has neither IEEE-754 floats nor a memory model; a differential/sanitizer technique would be needed (DESIGN.md section 6).",
 }
